@@ -529,6 +529,11 @@ LEX_BASE = [
     ('TL', [(False, ['CONFigurationOfTheInstrument', 'VALue'], False, [b'5'])]),
     ('TL', [(False, ['OUTPutStageNumber1', 'STATe'], True, []), (True, ['STATe'], True, [])]),
     ('TL', [(False, ['A1x', 'B_2y', 'C3d'], False, []), (False, ['*OPC'], True, [])]),
+    # a message ending in ';' (white space / CR may sit between it and the terminator) followed by a relative message: the terminator resets the path
+    ('T1', [(False, ['A', 'B'], False, [])], {'trailing': True, 'probe': b'C\n'}),
+    ('T1', [(False, ['A', 'B'], False, [])], {'probe': b'C\n'}),
+    ('T1', [(False, ['A', 'X', 'C'], False, []), (False, ['Q'], True, [])], {'trailing': True, 'probe': b'C;A:Q?\n'}),
+    ('T2', [(False, ['ABc', 'DeF'], False, [])], {'trailing': True, 'probe': b'DEF\n'}),
 ]
 
 
@@ -538,7 +543,8 @@ class LexCheck:
     def __init__(s, world, params):
         s.w, s.ex = world, world.ex
         s.idx = params['msg']
-        s.dev, s.units = LEX_BASE[s.idx]
+        s.dev, s.units = LEX_BASE[s.idx][:2]
+        s.opts = LEX_BASE[s.idx][2] if len(LEX_BASE[s.idx]) > 2 else {}
         s.max_ws = params.get('max_ws', 2)
         s.total_ws = params.get('total_ws', 2)      # extra white-space bytes per message, over all slots
         s.twin = params.get('twin', False)
@@ -588,8 +594,10 @@ class LexCheck:
                 msg.append(63)
             if args:
                 msg += [32] + list(b','.join(args))
+        if s.opts.get('trailing'):
+            msg.append(59)
         msg.append(10)
-        return msg
+        return msg + list(s.opts.get('probe', b''))
 
     def body(s):
         ex, w = s.ex, s.w
@@ -615,9 +623,13 @@ class LexCheck:
                         msg += s.ws(f'u{ui}c{ai}a', 0) + [44] + s.ws(f'u{ui}c{ai}b', 0)
                     msg += list(a)
             msg += s.ws(f'u{ui}z', 0)
+        if s.opts.get('trailing'):
+            msg.append(59)
+            msg += s.ws('trail', 0)
         if ex.decide([(0, True), (1, True)]) == 1:
             msg.append(13)
         msg.append(10)
+        msg += list(s.opts.get('probe', b''))
         s.msg = msg
         dev, out, _ = execute(w, s.dev, 'run', msg, cap=None)
         dev0, out0, _ = execute(w, s.dev, 'run', s.canonical(), cap=None)
